@@ -118,13 +118,16 @@ def observe(c, schedule, with_g1):
     for (e, fresh) in schedule:
         def one():
             nonlocal objs
-            if fresh or objs is None:
+            if fresh is True or objs is None:
                 objs = dict(ranks=[build(c, r, c["W"]) for r in range(c["W"])],
                             single=(build(c, 0, 1) if with_g1 else None))
             allobjs = objs["ranks"] + ([objs["single"]] if with_g1 else [])
-            for o in allobjs:
-                if c["sampler"] != "rand":
-                    o.set_epoch(e)
+            if fresh != "again":  # "again": a second pass over the same objects at the same (seed, epoch)
+                for o in allobjs:
+                    if c["sampler"] != "rand":
+                        o.set_epoch(e)
+            if fresh == "extra0":  # one rank has done an extra pass: all ranks must still share the one global draw
+                list(objs["ranks"][0])
             lens = [int(len(o)) for o in objs["ranks"]]
             streams = [[int(i) for i in o] for o in objs["ranks"]]
             d = dict(a="epoch", e=e, lens=lens, streams=streams)
@@ -150,7 +153,11 @@ def schedule_for(r, sampler, n_epochs=5):
     eps[2] = eps[0]
     if eps[1] == eps[0]:
         eps[1] = (eps[0] + 1) % 4
-    return [(e, (i == 0) or r.random() < 0.4) for i, e in enumerate(eps)]
+    sched = [(e, (i == 0) or r.random() < 0.4) for i, e in enumerate(eps)]
+    # a second pass without set_epoch, and a pass after rank 0 did an extra one (same (seed, epoch) -> same draw)
+    sched.append((eps[-1], "again"))
+    sched.append((eps[-1], "extra0"))
+    return sched
 
 
 # --------------------------------------------------------------------------------------------- C12 configurations
